@@ -710,6 +710,10 @@ def _index_patterns(body, iv):
             if k in (z3.Z3_OP_SELECT, z3.Z3_OP_SEQ_NTH) and t.num_args() == 2 and t.arg(1).eq(iv):
                 if not _mentions(t.arg(0), iv) and _pattern_ok(t.arg(0)):
                     found.append(t)
+            elif k == z3.Z3_OP_UNINTERPRETED and t.num_args() >= 1 and t.arg(t.num_args() - 1).eq(iv) and \
+                    not any(_mentions(t.arg(j), iv) for j in range(t.num_args() - 1)) and \
+                    all(_pattern_ok(t.arg(j)) for j in range(t.num_args() - 1)):
+                found.append(t)         # f(.., i): ghost layouts (off(k)), elements of untrusted lists
             todo.extend(t.children())
     return found[:4]
 
